@@ -1,6 +1,6 @@
 ------------------------------- MODULE KDFBcryptKat2 -------------------------------
-(* Known answers of bcrypt (module KDF), part 2 of 2: each needs 33 (cost 4) or 65 (cost 5) EksBlowfish key expansions of 521 Blowfish
-   encryptions - minutes of TLC time - so they are kept out of module KDF, and in two modules so that they run side by side.
+(* Known answers of bcrypt (module KDF), part 2 of 3: each needs 33 (cost 4) or 65 (cost 5) EksBlowfish key expansions of 521 Blowfish
+   encryptions - minutes of TLC time - so they are kept out of module KDF, and in three modules so that they run side by side.
    Values: "U*U*U" at cost 5 is a published vector of Openwall's crypt_blowfish (wrapper.c), reproduced at authoring time by libxcrypt's
    crypt(3), which also produced the others (empty password; a single 8-bit character - the historical sign-extension bug; 72 bytes - no
    terminating NUL is appended; 71 8-bit bytes including 0xFF).  crypt(3) was called under the prefix $2b$ (the plain OpenBSD algorithm)
@@ -8,7 +8,6 @@
    alters the hash of passwords hit by the sign-extension collision, which is not part of the algorithm). *)
 EXTENDS Integers, Sequences
 K == INSTANCE KDF
+ASSUME K!Bcrypt(<<>>, 4, <<213,114,104,49,43,200,33,42,157,1,208,79,123,217,255,61>>) = <<36,50,97,36,48,52,36,122,86,72,109,75,81,116,71,71,81,111,98,46,98,47,78,99,55,108,57,78,79,56,85,108,114,89,99,87,48,53,70,105,117,67,106,47,83,120,115,70,79,47,90,116,105,78,57,46,109,78,122,121>>
 ASSUME K!Bcrypt(<<163>>, 4, <<81,206,197,24,114,9,40,179,13,56,244,17,73,53,21,91>>) = <<36,50,97,36,48,52,36,83,97,53,68,69,70,71,72,73,74,75,76,77,78,79,80,81,82,83,84,85,117,67,105,82,84,116,116,56,103,97,65,49,108,51,119,108,73,54,117,78,83,97,87,122,99,113,77,103,85,115,56,83>>
-ASSUME K!Bcrypt(<<48,49,50,51,52,53,54,55,56,57,97,98,99,100,101,102,103,104,105,106,107,108,109,110,111,112,113,114,115,116,117,118,119,120,121,122,65,66,67,68,69,70,71,72,73,74,75,76,77,78,79,80,81,82,83,84,85,86,87,88,89,90,48,49,50,51,52,53,54,55,56,57>>, 4, <<113,215,159,130,24,163,146,89,167,162,154,171,178,219,175,195>>) = <<36,50,97,36,48,52,36,97,98,99,100,101,102,103,104,105,106,107,108,109,110,111,112,113,114,115,116,117,117,82,65,105,112,47,87,48,82,80,81,88,52,81,75,107,113,89,113,88,69,51,71,73,88,87,72,53,49,56,83,109>>
-ASSUME K!Bcrypt(<<255,163,255,163,255,163,255,163,255,163,255,163,255,163,255,163,255,163,255,163,255,163,255,163,255,163,255,163,255,163,255,163,255,163,255,163,255,163,255,163,255,163,255,163,255,163,255,163,255,163,255,163,255,163,255,163,255,163,255,163,255,163,255,163,255,163,255,163,255,163,129>>, 4, <<254,96,230,19,3,119,54,213,113,205,40,98,230,198,5,90>>) = <<36,50,97,36,48,52,36,57,107,66,107,67,117,76,49,76,114,84,118,120,81,102,103,51,113,87,68,85,101,108,119,79,103,98,50,74,52,67,74,110,84,85,105,118,78,119,99,86,77,76,69,49,52,100,105,68,70,117,82,105>>
 =============================================================================
